@@ -239,6 +239,9 @@ typedef struct ctx {
     vnaproperty_t **sub;
     char got[8][80];	/* results of get steps (copied) */
     int geti[8];
+    double complex pv[CS_MAXPARAM][CS_MAXF];	/* values before deletion */
+    double complex ppv[NPH][5];
+    int reuse[64];	/* handles handed out after everything was deleted */
     double complex getc[8];
     cs_scenario sc;
     const struct hist *h;
@@ -254,7 +257,7 @@ typedef struct step {
     int flags;
 } step_t;
 
-#define MAXSTEPS 120
+#define MAXSTEPS 160
 typedef struct hist {
     char name[80];
     char family;	/* 'C' cal, 'P' param, 'Y' property, 'D' data */
@@ -562,9 +565,14 @@ static int s_p_corr(ctx_t *c, int a, int b)
     return HND(c->ph[a]);
 }
 
+/* b != 0: a scalar or vector parameter, record its values first */
 static int s_p_delete(ctx_t *c, int a, int b)
 {
-    (void)b;
+    if (b)
+	for (int k = 0; k < 5; ++k)
+	    c->ppv[a][k] = vnacal_get_parameter_value(c->vcp, c->ph[a],
+		    a == 9 ? pf_lo :
+		    pf_lo + (pf_hi - pf_lo) * (0.03 + 0.235 * k));
     int rc = vnacal_delete_parameter(c->vcp, c->ph[a]);
     if (rc == 0)
 	c->ph[a] = -1;
@@ -577,6 +585,114 @@ static int s_p_value(ctx_t *c, int a, int b)
 	    pf_lo + 0.137e9 * b);
     c->getc[a % 8] = v;
     return (creal(v) == HUGE_VAL) ? 1 : 0;
+}
+
+/* ------------------------------------------------------------------ */
+/* slot-reuse observation and registration-order steps                 */
+
+/*
+ * delete parameter a of the scenario (its values are recorded first):
+ * together with s_reuse this makes holds that nobody owns visible
+ */
+static int s_c_delparam(ctx_t *c, int a, int b)
+{
+    cs_param *p = &c->sc.param[a];
+    (void)b;
+    for (int f = 0; f < c->sc.vna.nf; ++f)
+	c->pv[a][f] = vnacal_get_parameter_value(c->vcp, p->handle,
+		c->sc.vna.f[f]);
+    int rc = vnacal_delete_parameter(c->vcp, p->handle);
+    if (rc == 0)
+	p->handle = -1;
+    return RC(rc);
+}
+
+/* after every handle was deleted: the a-th new parameter */
+static int s_reuse(ctx_t *c, int a, int b)
+{
+    (void)b;
+    c->reuse[a] = vnacal_make_scalar_parameter(c->vcp, 0.25 + 0.01 * a);
+    return HND(c->reuse[a]);
+}
+
+static const vnacal_type_t r_types[] = { VNACAL_T8, VNACAL_U8, VNACAL_TE10,
+    VNACAL_UE14, VNACAL_T16, VNACAL_E12 };
+static const double r_freq[2] = { 1.0e9, 2.0e9 };
+
+static int s_r_new(ctx_t *c, int a, int b)
+{
+    c->vnp[a] = vnacal_new_alloc(c->vcp, r_types[b], 2, 2, 2);
+    return PTR(c->vnp[a]);
+}
+
+static int s_r_freq(ctx_t *c, int a, int b)
+{
+    (void)b;
+    return RC(vnacal_new_set_frequency_vector(c->vnp[a], r_freq));
+}
+
+/*
+ * standards whose S cells are slots of c->ph (>= 0) or predefined
+ * parameters (-1 zero/match, -2 one/open, -3 short); 2x2 m, 2 frequencies
+ */
+enum { RA_SINGLE, RA_DOUBLE, RA_THROUGH, RA_LINE, RA_MAPPED };
+static const struct { int entry, p[4], port1, port2; } radd_tab[] = {
+    /*0*/ { RA_SINGLE, { 3, 0, 0, 0 }, 1, 0 },	/* c1 -> vector */
+    /*1*/ { RA_MAPPED, { 4, -1, -1, 4 }, 1, 2 },/* c2 -> unknown, twice */
+    /*2*/ { RA_DOUBLE, { 5, 1, 0, 0 }, 1, 2 },	/* c3 -> scalar; vector */
+    /*3*/ { RA_LINE,   { -1, 2, 2, -1 }, 1, 2 },	/* unknown line */
+    /*4*/ { RA_DOUBLE, { 4, 3, 0, 0 }, 2, 1 },	/* both chains in one call */
+    /*5*/ { RA_SINGLE, { 2, 0, 0, 0 }, 2, 0 },	/* the unknown itself */
+    /*6*/ { RA_SINGLE, { 1, 0, 0, 0 }, 1, 0 },	/* correlate first */
+    /*7*/ { RA_MAPPED, { 3, 5, 4, 3 }, 1, 2 },	/* three chains, c1 twice */
+    /*8*/ { RA_THROUGH, { 0, 0, 0, 0 }, 1, 2 },
+    /*9*/ { RA_LINE,   { 5, -2, -2, 3 }, 2, 1 },	/* correlated in a line */
+    /*10*/ { RA_SINGLE, { 5, 0, 0, 0 }, 1, 0 },
+    /*11*/ { RA_MAPPED, { 4, 4, 4, 4 }, 1, 2 },	/* one chain in all cells */
+};
+
+static int r_handle(const ctx_t *c, int slot)
+{
+    switch (slot) {
+    case -1: return VNACAL_ZERO;
+    case -2: return VNACAL_ONE;
+    case -3: return VNACAL_SHORT;
+    default: return c->ph[slot];
+    }
+}
+
+static int s_r_add(ctx_t *c, int a, int b)
+{
+    static double complex mv[4][2];
+    double complex *mp[4];
+    int h[4], ports[2];
+
+    for (int i = 0; i < 4; ++i) {
+	for (int f = 0; f < 2; ++f)
+	    mv[i][f] = (i == 0 || i == 3 ? 0.4 : 0.1) *
+		cexp(I * (0.5 * i + 0.3 * f + 0.7 * b)) + 0.05 * b;
+	mp[i] = mv[i];
+	h[i] = r_handle(c, radd_tab[b].p[i]);
+    }
+    ports[0] = radd_tab[b].port1;
+    ports[1] = radd_tab[b].port2;
+    switch (radd_tab[b].entry) {
+    case RA_SINGLE:
+	return RC(vnacal_new_add_single_reflect_m(c->vnp[a], mp, 2, 2, h[0],
+		    ports[0]));
+    case RA_DOUBLE:
+	return RC(vnacal_new_add_double_reflect_m(c->vnp[a], mp, 2, 2, h[0],
+		    h[1], ports[0], ports[1]));
+    case RA_THROUGH:
+	return RC(vnacal_new_add_through_m(c->vnp[a], mp, 2, 2, ports[0],
+		    ports[1]));
+    case RA_LINE:
+	return RC(vnacal_new_add_line_m(c->vnp[a], mp, 2, 2, h, ports[0],
+		    ports[1]));
+    default:
+	return RC(vnacal_new_add_mapped_matrix_m(c->vnp[a], mp, 2, 2, h, 2, 2,
+		    ports));
+    }
 }
 
 /* ------------------------------------------------------------------ */
@@ -981,6 +1097,11 @@ static void observe(ctx_t *c, obs_t *o)
 	    obs_i(o, c->ci[i]);
 	    obs_i(o, c->addrc[i]);
 	}
+	for (int i = 0; i < c->sc.nparam; ++i) {
+	    for (int f = 0; f < c->sc.vna.nf; ++f)
+		obs_c(o, c->pv[i][f]);
+	    obs_i(o, c->reuse[i]);
+	}
 	obs_s(o, c->got[0]);
 	obs_vnacal(c, o, c->vcp, 0);
 	obs_vnacal(c, o, c->vcp2, 1);
@@ -996,6 +1117,11 @@ static void observe(ctx_t *c, obs_t *o)
 	}
 	for (int i = 0; i < 8; ++i)
 	    obs_c(o, c->getc[i]);
+	for (int i = 0; i < NPH; ++i) {
+	    obs_i(o, c->reuse[i]);
+	    for (int k = 0; k < 5; ++k)
+		obs_c(o, c->ppv[i][k]);
+	}
 	break;
     case 'Y':
 	for (int i = 0; i < 3; ++i) {
@@ -1280,6 +1406,23 @@ static void cal_hist(vnacal_type_t type, int rows, int cols, int nf,
 	ADD(h, s_save, 1, 0, "vnacal_save");
 	ADD(h, s_load, 1, 0, "vnacal_load");
     }
+    /*
+     * slot-reuse observation: release everything that holds parameters,
+     * delete every handle, then as many new parameters as there were must
+     * get the lowest slots back
+     */
+    if (tail != T_MULTI)
+	ADD(h, s_free_new, 0, 0, "vnacal_new_free");
+    {
+	int n = 0;
+	for (int i = sc->nparam - 1; i >= 0; --i)
+	    if (sc->param[i].kind != CSP_PREDEF) {
+		ADD(h, s_c_delparam, i, 0, "vnacal_delete_parameter");
+		++n;
+	    }
+	for (int i = 0; i < n; ++i)
+	    ADD(h, s_reuse, i, 0, "vnacal_make_scalar_parameter");
+    }
 }
 
 static void param_hists(void)
@@ -1298,8 +1441,8 @@ static void param_hists(void)
     ADD(h, s_p_corr, 8, 2 * 16 + 6, "vnacal_make_correlated_parameter");
     ADD(h, s_p_value, 1, 3, "vnacal_get_parameter_value");
     ADD(h, s_p_value, 0, 1, "vnacal_get_parameter_value");
-    ADD(h, s_p_delete, 0, 0, "vnacal_delete_parameter");
-    ADD(h, s_p_delete, 5, 0, "vnacal_delete_parameter");
+    ADD(h, s_p_delete, 0, 1, "vnacal_delete_parameter");
+    ADD(h, s_p_delete, 5, 1, "vnacal_delete_parameter");
     ADD(h, s_p_vector, 9, 1, "vnacal_make_vector_parameter");
     ADD(h, s_p_vector, 10, 2, "vnacal_make_vector_parameter");
     ADD(h, s_p_corr, 11, 10 * 16 + 4, "vnacal_make_correlated_parameter");
@@ -1307,7 +1450,93 @@ static void param_hists(void)
 	ADD(h, s_p_scalar, i, i, "vnacal_make_scalar_parameter"); /* -> 32 */
     ADD(h, s_p_value, 9, 0, "vnacal_get_parameter_value");
     ADD(h, s_p_value, 10, 3, "vnacal_get_parameter_value");
-    ADD(h, s_p_delete, 10, 0, "vnacal_delete_parameter");
+    ADD(h, s_p_delete, 10, 1, "vnacal_delete_parameter");
+    /* delete every handle, then 18 new ones must fill slots 3..20 */
+    for (int i = 19; i >= 1; --i)
+	if (i != 5 && i != 10)
+	    ADD(h, s_p_delete, i, i == 1 || i == 9 || i >= 12,
+		    "vnacal_delete_parameter");
+    for (int i = 0; i < 18; ++i)
+	ADD(h, s_reuse, i, 0, "vnacal_make_scalar_parameter");
+}
+
+/*
+ * registration order: every parameter kind is first seen by a vnacal_new_t
+ * through an add call, in every dependency order
+ *   ph0 scalar, ph1 vector, ph2 unknown(ph0), ph3 correlated(ph1),
+ *   ph4 correlated(ph2) [chain of two], ph5 correlated(ph0)
+ */
+static void reg_params(hist_t *h)
+{
+    ADD(h, s_create, 0, 0, "vnacal_create");
+    ADD(h, s_p_scalar, 0, 1, "vnacal_make_scalar_parameter");
+    ADD(h, s_p_vector, 1, 5, "vnacal_make_vector_parameter");
+    ADD(h, s_p_unknown, 2, 0, "vnacal_make_unknown_parameter");
+    ADD(h, s_p_corr, 3, 1 * 16 + 1, "vnacal_make_correlated_parameter");
+    ADD(h, s_p_corr, 4, 2 * 16 + 3, "vnacal_make_correlated_parameter");
+    ADD(h, s_p_corr, 5, 0 * 16 + 2, "vnacal_make_correlated_parameter");
+}
+
+static const char *radd_name(int b)
+{
+    switch (radd_tab[b].entry) {
+    case RA_SINGLE:  return "vnacal_new_add_single_reflect_m";
+    case RA_DOUBLE:  return "vnacal_new_add_double_reflect_m";
+    case RA_THROUGH: return "vnacal_new_add_through_m";
+    case RA_LINE:    return "vnacal_new_add_line_m";
+    default:	     return "vnacal_new_add_mapped_matrix_m";
+    }
+}
+
+static void reg_tail(hist_t *h, int delete_first)
+{
+    if (!delete_first) {
+	ADD(h, s_free_new, 1, 0, "vnacal_new_free");
+	ADD(h, s_free_new, 0, 0, "vnacal_new_free");
+    }
+    for (int i = 5; i >= 0; --i)
+	ADD(h, s_p_delete, i, i <= 1, "vnacal_delete_parameter");
+    if (delete_first) {
+	/* the vnacal_new_t structures held the deleted parameters */
+	ADD(h, s_free_new, 0, 0, "vnacal_new_free");
+	ADD(h, s_free_new, 1, 0, "vnacal_new_free");
+    }
+    for (int i = 0; i < 6; ++i)
+	ADD(h, s_reuse, i, 0, "vnacal_make_scalar_parameter");
+}
+
+static void reg_hist(const char *what, int type0, int type1,
+	const int *adds0, const int *adds1, int delete_first)
+{
+    hist_t *h = new_hist('P', "registration order: %s", what);
+    reg_params(h);
+    ADD(h, s_r_new, 0, type0, "vnacal_new_alloc");
+    ADD(h, s_r_freq, 0, 0, "vnacal_new_set_frequency_vector");
+    for (int i = 0; adds0[i] >= 0; ++i)
+	ADD(h, s_r_add, 0, adds0[i], radd_name(adds0[i]));
+    ADD(h, s_r_new, 1, type1, "vnacal_new_alloc");
+    ADD(h, s_r_freq, 1, 0, "vnacal_new_set_frequency_vector");
+    for (int i = 0; adds1[i] >= 0; ++i)
+	ADD(h, s_r_add, 1, adds1[i], radd_name(adds1[i]));
+    reg_tail(h, delete_first);
+}
+
+static void reg_hists(void)
+{
+    static const int a1[] = { 0, 1, 2, 3, -1 }, b1[] = { 4, 5, -1 };
+    static const int a2[] = { 6, 5, 10, 0, 1, -1 }, b2[] = { 7, 8, -1 };
+    static const int a3[] = { 9, 11, -1 }, b3[] = { 1, 0, 2, -1 };
+    static const int a4[] = { 7, -1 }, b4[] = { 11, 9, -1 };
+
+    reg_hist("correlated before its correlate (vector, unknown, scalar), "
+	    "same chain in two cells, second vnacal_new_t", 0, 1, a1, b1, 0);
+    reg_hist("correlate first, then the correlated; three chains in one "
+	    "mapped matrix on a second vnacal_new_t; handles deleted before "
+	    "the vnacal_new_t are freed", 2, 3, a2, b2, 1);
+    reg_hist("correlated in a line and in all four cells first (T16), same "
+	    "chains again on a UE14", 4, 3, a3, b3, 0);
+    reg_hist("three chains registered by one call (E12), again on a U8",
+	    5, 1, a4, b4, 1);
 }
 
 static void prop_hists(void)
@@ -1517,6 +1746,7 @@ static void build_histories(void)
     cal_hist(VNACAL_UE10, 2, 2, 1, 0, 0, 0, 0, 1, X_TRL, T_ADD);
     cal_hist(VNACAL_T8,   2, 2, 2, 0, 0, 0, 2, 0, X_CORR, T_ADD);
     param_hists();
+    reg_hists();
     prop_hists();
     data_hists();
 }
@@ -1533,6 +1763,15 @@ typedef struct runinfo {
 } runinfo_t;
 
 static ctx_t C;
+
+/*
+ * comparison with the unfaulted run is made before the tear-down, so that
+ * a state difference is reported as such even when freeing the damaged
+ * objects would then trip an assertion
+ */
+static const obs_t *g_ref;
+static int g_mismatch;
+static char g_why[300];
 
 static void leak_check(vf_result *r, unsigned long mark, const char *where)
 {
@@ -1577,6 +1816,8 @@ static int run_history(hist_t *h, long k1, long k2, obs_t *o, runinfo_t *ri,
 	c->ci[i] = -1;
     for (int i = 0; i < 8; ++i)
 	c->getc[i] = 0;
+    for (int i = 0; i < 64; ++i)
+	c->reuse[i] = -1;
     cleanup_files();
 
     mark = vf_exec_begin();
@@ -1706,6 +1947,16 @@ static int run_history(hist_t *h, long k1, long k2, obs_t *o, runinfo_t *ri,
     vf_alloc_fail_at2 = 0;
     observe(c, o);
     completed = 1;
+    g_mismatch = 0;
+    if (g_ref != NULL && obs_cmp(g_ref, o, g_why, sizeof(g_why)) != 0) {
+	/* judged by the caller; the objects are abandoned, not freed */
+	g_mismatch = 1;
+	vf_alloc_fail_at = 0;
+	vf_alloc_fail_at2 = 0;
+	cleanup_files();
+	vf_leak_discard(mark);
+	return 0;
+    }
 
 out:
     vf_alloc_fail_at = 0;
@@ -1784,7 +2035,9 @@ static int one_run(hist_t *h, int hi, long k1, long k2, vf_result *r,
     static obs_t o;
 
     (void)hi;
+    g_ref = &h->ref;
     int rc = run_history(h, k1, k2, &o, ri, r);
+    g_ref = NULL;
     if (rc != 0 || r->status == VF_VIOL) {
 	if (r->status != VF_VIOL)
 	    vf_fail(r, "driver", "history did not complete");
@@ -1803,8 +2056,8 @@ static int one_run(hist_t *h, int hi, long k1, long k2, vf_result *r,
 	    return -1;
 	}
     }
-    char why[300];
-    if (obs_cmp(&h->ref, &o, why, sizeof(why)) != 0) {
+    const char *why = g_why;
+    if (g_mismatch) {
 	char sig[200];
 	int fs = ri->faulted_step[ri->nfaults > 1 ? 1 : 0];
 	if (fs >= 0)
